@@ -9,7 +9,7 @@ package oidc
 
 // ------------------------------------------------------------------ C04: what Verify accepts
 //@ func (*idTokenVerifier).Verify
-//@ prop C04 C14
+//@ prop C04 C14 C01
 //@ ensures[accepted-only-if-go-oidc-verified-and-audience-ok] ret1 == nil ==> ret1(Verify) == nil && recv(Verify) == v.verifier
 //@     && arg(Verify, 2) == rawIDToken && ret0 == ret0(Verify) && called(verifyAudience) && ret0(verifyAudience)
 //@     && arg(verifyAudience, 1) == ret0(Verify)
@@ -18,21 +18,21 @@ package oidc
 //@ func (*idTokenVerifier).isValidAudience
 //@ safety
 //@ nomod
-//@ prop C04
+//@ prop C04 C01
 //@ loop 0 invariant[no-earlier-audience-allowed] rangeindex >= -1 && forall j int :: 0 <= j && j <= rangeindex ==> !inmap(allowedAudiences, audience[j])
 //@ ensures[some-audience-is-allowed] ret0 <==> exists k int :: 0 <= k && k < len(audience) && inmap(allowedAudiences, audience[k])
 //@ ensures[refusal-is-an-error] !ret0 ==> ret1 != nil
 
 //@ func (*idTokenVerifier).verifyAudience
 //@ safety
-//@ prop C04 C14 C19
+//@ prop C04 C14 C19 C01
 //@ ensures[ok-only-via-allowed-audience-check] ret0 ==> called(isValidAudience) && ret0(isValidAudience)
 //@     && arg(isValidAudience, 3) == v.allowedAudiences
 //@ ensures[refusal-is-an-error] !ret0 ==> ret1 != nil
 
 //@ func (*idTokenVerifier).interfaceSliceToString
 //@ safety
-//@ prop C14 C19
+//@ prop C14 C19 C01
 //@ ensures[error-means-nothing] ret1 != nil ==> ret0 == nil
 
 
@@ -47,6 +47,9 @@ package oidc
 //@ prop C04
 //@ at call NewVerifier assert[verifier-built-from-these-options] arg(NewVerifier, 1) == ret(toVerificationOptions)
 //@     && arg(NewVerifier, 0) == ret(verifierBuilder) && arg(verifierBuilder, 0) == ret(toOIDCConfig)
+//@ prop C04 C01
+//@ ensures[the-audience-checking-verifier-is-always-what-callers-get] ret1 == nil ==> called(NewVerifier) && typeis(ret0, "*providerVerifier")
+//@     && as(ret0, "*providerVerifier").verifier == ret(NewVerifier)
 
 //@ func (ProviderVerifierOptions).toVerificationOptions
 //@ prop C04
